@@ -6,6 +6,10 @@ hooks_commits = subprocess.run(["git","-C","/repo","log","--format=%h %s"],captu
 hook_commits = [l.split()[0] for l in hooks_commits if l.split(" ",1)[1].startswith("verif:")]
 
 CHECKS = {
+ "C09": dict(engine="E1 simk + E2 e2e (mt)", category="model_checking", technique="stateless model checking of the real tracer core over a simulated ptrace kernel: deviation-bounded exhaustive enumeration of kernel schedules (thread choice at every ptrace/wait call, order of ready wait events, snapshot order, late interrupt notice), kernel rules litmus-tested on the real kernel",
+   text="The real Tracer::resume / single_step / TraceeCtl / Breakpoint code runs over a simulated kernel (threads of straight-line programs with spawn, join, exit, exit_group; INT3 patching through POKE; clone/exit/stop events; interrupts that are noticed late; launched and attached flavour of PTRACE_EVENT_STOP). Every execution with at most 4 (quick) / 6 (thorough) deviations from two base schedules is run for 6 (8) thread programs with breakpoints shared by workers, in main, at thread entry, adjacent, with exit storms and exit_group, each also with `stepi` after every stop and a temporary breakpoint armed (step over / step out): at every reported stop no thread runs, the tracer's thread list equals the kernel's live threads, the text carries INT3 exactly at enabled breakpoints, the reported thread sits on the breakpoint before executing it; at exit every executed breakpoint instruction had exactly one report, no instruction ran twice or was skipped, the tracer never hangs, errs or panics. The same oracles run on real-kernel sessions with libc-free multi-threaded debuggees (raw clone).",
+   note="Trusted: the kernel model (rules from ptrace(2), litmus programs in /verif/litmus run on this kernel; the real-kernel part binds it). 2-4 threads, programs of 2-6 instructions; N up to 64 threads of the quantifier is not reached. The driver restates Debugger::continue_execution/step_over_breakpoint/single_step_instruction (the Debugger itself needs DWARF and is exercised by the real-kernel part). Real-kernel schedules are the kernel's (sampled), they bind the model and give witnesses, they decide nothing. Four genuine defects were repaired, four are recorded as known findings.",
+   design="0.1/E1, 3/C09, App.A"),
  "C19": dict(engine="E2 e2e", category="exploration", technique="enumeration of scope skeletons (nesting, shadowing, recursion) x every stop x every frame, oracle = the generator's static scope model",
    text="Scope skeletons over {let x, let y, nested block} (blocks of up to 3 items, one nesting level, kept if they shadow or nest; quick 10 of them spread over the enumeration, thorough 120) are rendered into a recursive function (depth 3) whose every declaration is followed by a stop line; at every stop of every activation and for every frame of the backtrace the locals shown must contain each innermost live binding with that activation's own value and nothing declared later or in a closed block, `var <name>` must return exactly the innermost live binding, and `arg all` that activation's argument.",
    note="opt-level 0 only (values kept in registers by optimized code and closures are not covered).",
@@ -36,11 +40,11 @@ CHECKS = {
    design="3/C11"),
  "C15": dict(engine="E2 e2e (in-worker sweep)", category="exploration", technique="bounded-exhaustive sweep of (address, length) windows, word writes, register values and breakpoint placements against /proc/pid/mem and PTRACE_GETREGS",
    text="At two stops per program every read window (17 start offsets around a word boundary x lengths 0..17, and every (start, length) inside the last 16 bytes before each unmapped hole) is compared with /proc/pid/mem; word writes at all 8 alignments x 3 values must change exactly 8 bytes; 15 registers x 4 values are written, read back and confirmed by an independent PTRACE_GETREGS with no other register moving; with a breakpoint on every instruction the disassembly must equal the unpatched one; afterwards the program must still finish natively.",
-   note="DAP writeMemory / setVariable / setExpression are not covered yet (library API only).",
+   note="The sweep also runs with a worker thread of a multi-threaded debuggee in focus. DAP writeMemory / setVariable / setExpression are not covered yet (library API only).",
    design="3/C15"),
- "C10": dict(engine="E2 e2e", category="model_checking", technique="explicit-state exploration of command histories over self-signalling programs; oracle = reference trace with recorded signal deliveries + handler counters",
+ "C10": dict(engine="E2 e2e + E1 simk", category="model_checking", technique="explicit-state exploration of command histories over self-signalling programs (real kernel) + deviation-bounded exhaustive schedule enumeration of the real tracer over the simulated kernel with signals landing at any kernel call",
    text="Programs raise SIGUSR1/SIGUSR2 (non-quiet) and SIGALRM (quiet) on themselves, one of them with two signals blocked, raised and unblocked together; every history of breakpoints + start/continue/stepi/step/next/finish up to depth 5 (quick) / 7 is executed: each non-quiet signal must be reported exactly once as a signal stop for the receiving thread in the state just before its handler (or cut a step short and say so), quiet ones never, and the handler counters printed at exit must equal the native run whatever mix of continue and step commands was used (delivered exactly once).",
-   note="Real kernel. Signals are raised by the program on itself, plus SIGINT sent from outside while the program is stopped (must be reported, never delivered: the SIGINT handler counter is part of the output). Signals arriving while the program runs freely, multi-threaded targets and bursts from outside are not covered; the simulated-kernel engine E1 of the design is not built.",
+   note="Real kernel. Signals are raised by the program on itself, plus SIGINT sent from outside while the program is stopped (must be reported, never delivered: the SIGINT handler counter is part of the output). Second part (E1): the real tracer over the simulated kernel, one- and two-thread programs, 1-3 external signals (USR1, USR2, quiet ALRM, SIGINT) sent to chosen threads at any kernel call, user = continue or stepi+continue, <= 3 (quick) / 5 deviations: each signal delivered exactly once to its thread (SIGINT never), reported once unless quiet, injection queue empty at exit; every violation is classified by cause from the kernel-side life of the signal (suppressed by a step, injected at an event stop, ...). Third part: fixed real-kernel witness histories. One defect repaired (quiet signal delivered twice), six signatures recorded as known findings (injection queue).",
    design="3/C10"),
  "C13": dict(engine="E5 dap", category="model_checking", technique="explicit-state exploration of DAP breakpoint-request histories on the real adapter, oracle = reference trace filtered by the latest sets and option semantics",
    text="Histories of initialize/launch/configurationDone/continue/restart interleaved with setBreakpoints (subsets of two lines x {plain, condition true/false/data-query, hitCondition 2 / >=2, logMessage}), setFunctionBreakpoints and setInstructionBreakpoints, each tried before launch, before configurationDone, while stopped and after restart (depth 5 quick / 7); after every resume the stop on the wire and the pc read from /proc must be the next arrival of the reference trace at a location of the latest sets that the options allow; logpoints produce one output per hit; verified = a patch exists in /proc/pid/mem.",
@@ -70,9 +74,9 @@ CHECKS = {
    text="(schedules) All interleavings, up to the stated preemption bound, of the real DebugSession::run thread and the two real output-forwarder threads are executed; every wire log is checked for seq = 1,2,3.. in wire order, exactly one matching response per request, every output line exactly once. (histories) Explicit-state search over DAP request histories: 34 request symbols (valid, missing and ill-typed arguments, out of order, repeated, cancel-ahead) are executed from every distinct canonical state of the real adapter with a real debuggee, up to 4 (quick) / 6 state-changing steps; every message is checked by the protocol monitor M1-M11 (one response per request, contiguous seq, resume outcomes, thread/exit/terminated ordering, nothing after terminated, connection stays up).",
    note="Trusted: schedule points bracket every sequence-number allocation and every transport lock; the transport mutex state is read with try_lock (ground truth). Requests that leave the canonical state unchanged are chained inside one session. Envelope-level garbage belongs to C08. Three genuine defects are recorded as known findings.",
    design="2/E3, 3/C12, App.B"),
- "C14": dict(engine="E4 pure + E2 e2e", category="model_checking", technique="explicit-state BFS over the full reachable DR7 state space of the real register-encoding code",
+ "C14": dict(engine="E4 pure + E2 e2e (+mt)", category="model_checking", technique="explicit-state BFS over the full reachable DR7 state space of the real register-encoding code",
    text="All 1.68M DR7 images reachable from 0 under the 48 configure/enable operations are visited; in every state the image equals an independently written Intel-SDM encoder applied to a reference slot table, and dr_enabled agrees.",
-   note="Bits 8/9 (LE/GE) are not constrained because the property does not mention them. Second part: real debug registers of every thread read by the harness after every command of an explored history over 7 watchpoint candidates (sizes 1/2/4/8, w/rw, same-address pair, one address that is 4- but not 8-byte aligned), add / remove by number or address / continue / restart, depth 8 (quick) / 10. Hardware never delivers data breakpoints in this VM, so 'every write stops once and reports old/new value', scope-end removal of local watchpoints and inheritance by new threads are NOT decided.",
+   note="Bits 8/9 (LE/GE) are not constrained because the property does not mention them. Second part: real debug registers of every thread read by the harness after every command of an explored history over 7 watchpoint candidates (sizes 1/2/4/8, w/rw, same-address pair, one address that is 4- but not 8-byte aligned), add / remove by number or address / continue / restart, depth 8 (quick) / 10. Third part: a multi-threaded debuggee (raw clone): watchpoints set before / after the threads exist, with and without restart; DR0-3/DR7 of every task must encode exactly the watchpoint list (inheritance by new threads). Hardware never delivers data breakpoints in this VM, so 'every write stops once and reports old/new value' and scope-end removal of local watchpoints are NOT decided.",
    design="3/C14(a)"),
  "C17": dict(engine="E4 pure", category="model_checking", technique="explicit-state search over insert histories of the real path-suffix index with a Vec reference model",
    text="Every ordered insert sequence up to depth 2 (3 thorough) and every multiset up to depth 3 (4) over 39 '::' paths / 51 '/' paths (incl. rooted) on the real PathSearchIndex; every query of length 1-4 plus near-misses is compared with 'matches iff query components are a suffix'.",
@@ -82,7 +86,6 @@ CHECKS = {
 REASONS_NOT_BUILT = "engine for this property is designed (DESIGN.md section 3) but not built yet in this round"
 NA = {
  "C06": "needs std collections (String, Vec, HashMap, BTreeMap, Rc, ...): the corpus of this round is libc-free `no_std` (DESIGN.md section 0.2); the value-grammar generator of section 3/C06 is not built",
- "C09": "needs fine-grained control of thread interleavings: the simulated ptrace kernel (engine E1) and the gated multi-thread debuggees (E2-mt) of the design are not built; hooks H1/H2 for E1 are in place",
  "C19": "scope/shadowing program generator of section 3/C19 not built in this round",
  "C20": "no tokio crate in the sealed cargo cache and no tokio example binary: a debuggee containing a tokio runtime cannot be built, so nothing can be enumerated (DESIGN.md section 6)"}
 
@@ -113,6 +116,7 @@ m = {
    "add_only": True,
  },
  "engines": [
+   {"name":"E1 simk","path":"/verif/harness/src/simk.rs (+ mt.rs for the real-kernel binding, /verif/litmus for the kernel rules)","serves_properties":["C09","C10"],"kind_free_text":"the real tracer core over a simulated ptrace kernel (feature-gated verif::sys shim); deviation-bounded stateless exploration of every kernel-side choice; every execution runs the real code"},
    {"name":"E3 sched","path":"/verif/harness/src/sched.rs","serves_properties":["C12"],"kind_free_text":"hand-rolled CHESS: real threads parked at feature-gated schedule points, preemption-bounded DFS, worker subprocess per subtree"},
    {"name":"E2 e2e","path":"/verif/harness/src/{e2x,e2w,isession,reftrace,dwarfref,corpus,c01}.rs","serves_properties":["C01","C02","C03","C04","C05","C06","C10","C11","C14","C15","C16","C18","C19"],"kind_free_text":"explicit-state exploration of command histories: one interactive worker process per session running the real Debugger over generated libc-free debuggees; reference single-step tracer; canonical-state deduplication"},
    {"name":"E5 dap","path":"/verif/harness/src/{dapx,dapw,c12}.rs","serves_properties":["C12","C13"],"kind_free_text":"explicit-state exploration of DAP request histories: the real DebugSession::run on a thread inside one worker process per session, in-memory transport, real debuggee; protocol monitor + reference-trace oracle"},
